@@ -24,6 +24,7 @@
 
 static unsigned g_flushes;
 static size_t g_flushed;
+static bool g_partial_flush;
 
 int c13_flush_contract(sqfs_meta_writer_t *m)
 {
@@ -36,6 +37,8 @@ int c13_flush_contract(sqfs_meta_writer_t *m)
 		return c14_error_code("flush.err");
 	}
 	g_flushed += m->offset;
+	if (m->offset != sizeof(m->data))
+		g_partial_flush = true;
 	m->block_offset += 2 + (verif_nd_u16("flush.stored") % 8192) + 1;
 	m->offset = 0;
 	return 0;
@@ -55,6 +58,7 @@ void harness(void)
 	c14_file_init(C14_SUPER_SZ);
 	g_flushes = 0;
 	g_flushed = 0;
+	g_partial_flush = false;
 	VERIF_ASSUME(size <= APPEND_MAX);
 	data = malloc(size);
 	VERIF_ASSUME(data != NULL);
@@ -68,7 +72,7 @@ void harness(void)
 	VERIF_ASSERT(!g_fault || ret != 0, "C13.meta_append.propagates");
 	if (ret == 0)
 		VERIF_ASSERT(g_flushed + m.offset == off0 + size &&
-			     g_flushed == (size_t)g_flushes * sizeof(m.data) &&
+			     !g_partial_flush &&
 			     m.offset < sizeof(m.data),
 			     "C13.meta_append.accounts");
 	VERIF_COVER(ret == 0 && size == 0);
